@@ -3,6 +3,7 @@ import Model.Checker
 import Model.Guard
 import Model.Migration
 import Model.Enfold
+import Model.Backends
 /-!
 # The Python primitives that the translated rule bodies are made of
 
@@ -41,6 +42,9 @@ inductive V where
                                                -- the cache store of the enfolding cache), whether the wrapped storage was
                                                -- called, how often the listeners were notified, the exception a storage
                                                -- call ended in
+  | alog (audits : List AuditRec) (decisions : List Bool)
+                                               -- what the guard writes: the audit records and the decision-log records
+                                               -- (allowed / rejected) so far
 
 instance : Inhabited V := ⟨.py .none⟩
 
@@ -67,6 +71,7 @@ def truth : V → Bool
   | .polv _ _ _ => true
   | .pols l => !l.isEmpty
   | .eworld _ _ _ _ _ => true
+  | .alog _ _ => true
 
 /-- the answer of `satisfied` as the checkers see it: its truthiness, or the exception -/
 def toR (m : M) : R := m.map truth
@@ -210,6 +215,7 @@ def attrM (a : M) (name : String) : M :=
         | "resource" => .ok (.py q.resource)
         | "context" => .ok (.py q.context)
         | _ => raiseM)
+    | .polv u _ _ => if name == "uid" then .ok (.py (.str u)) else raiseM      -- `policy.uid`
     | _ => raiseM                                      -- AttributeError
 
 /-- `a[k]`: a dictionary item (`KeyError` when absent), a list / tuple / string item by a constant index -/
@@ -626,6 +632,88 @@ def stCallM (target meth : String) (args : List M) (w : M) (k : V → V → M) :
             | .pols l => k (.pols l) (.eworld cfg s' t nt Option.none)
             | e => .ok (.eworld cfg s' t nt (some e))))
       | _ => raiseM
+
+/-! ### the in-memory storage: its dictionary `self.policies` is the `backend` component of the world -/
+
+/-- `key in self.policies` -/
+def dictInM (key w : M) : M :=
+  bindM key fun k => bindM w fun w => match k, w with
+    | .py (.str u), .eworld _ s _ _ Option.none => ofBool (Backends.dictGet u s.backend).isSome
+    | _, _ => raiseM
+
+/-- `self.policies.get(key)` -/
+def dictGetM (key w : M) : M :=
+  bindM key fun k => bindM w fun w => match k, w with
+    | .py (.str u), .eworld _ s _ _ Option.none =>
+      (match Backends.dictGet u s.backend with | some p => .ok (.polv u p true) | Option.none => cNone)
+    | _, _ => raiseM
+
+/-- `self.policies.values()` -/
+def dictValuesM (w : M) : M :=
+  bindM w fun w => match w with
+    | .eworld _ s _ _ Option.none => .ok (.pols s.backend)
+    | _ => raiseM
+
+/-- `self.policies[key] = policy` -/
+def dictSetM (key val w : M) (k : V → M) : M :=
+  bindM key fun ky => bindM val fun v => bindM w fun w => match ky, v, w with
+    | .py (.str u), .polv _ p _, .eworld cfg s t n Option.none =>
+      k (.eworld cfg { s with backend := Backends.dictSet u p s.backend } t n Option.none)
+    | _, _, _ => raiseM
+
+/-- `del self.policies[key]` (`KeyError` when absent) -/
+def dictDelM (key w : M) (k : V → M) : M :=
+  bindM key fun ky => bindM w fun w => match ky, w with
+    | .py (.str u), .eworld cfg s t n Option.none =>
+      if (Backends.dictGet u s.backend).isSome then k (.eworld cfg { s with backend := Backends.dictDel u s.backend } t n Option.none)
+      else raiseM
+    | _, _ => raiseM
+
+/-- `raise PolicyExistsError(...)` / `raise ValueError(...)` in a method that acts on a world: the method ends, the world
+records the exception -/
+def raiseWorldM (exc : String) (w : M) : M :=
+  bindM w fun w => match w with
+    | .eworld cfg s t n Option.none =>
+      (match exc with
+       | "PolicyExistsError" => .ok (.eworld cfg s t n (some .existsErr))
+       | "ValueError" => .ok (.eworld cfg s t n (some .valueError))
+       | _ => raiseM)
+    | _ => raiseM
+
+/-- `xs[lo:hi]` on a list of objects, for non-negative bounds -/
+def sliceM (xs lo hi : M) : M :=
+  bindM xs fun x => bindM lo fun a => bindM hi fun b => match x, a, b with
+    | .seq l, .py (.int i), .py (.int j) => if 0 ≤ i && 0 ≤ j then .ok (.seq (Backends.pySlice l i.toNat j.toNat)) else raiseM
+    | _, _, _ => raiseM
+
+/-- the call of another translated method that acts on the world: it returned (value, world), or ended in an exception -/
+def callProcM (m : M) (k : V → V → M) : M :=
+  match m with
+  | .ok (.seq [r, w]) => k r w
+  | other => other
+
+/-! ### the guard's log records as effects on an explicit log value -/
+
+/-- a list literal of objects -/
+def seqOfM (xs : List M) : M := (evalArgs xs).map V.seq
+
+/-- the policies a list of policy objects holds -/
+def policiesOf : V → Option (List Policy)
+  | .seq xs => xs.mapM fun x => match x with | .policy p => some p | _ => Option.none
+  | _ => Option.none
+
+/-- `audit_log.info(msg, extra={'effect': …, 'candidates': self.apm(cs), 'deciders': self.apm(ds), …}); return r`:
+one more audit record, and the method returns -/
+def auditRetM (allow : Bool) (cands decs ret w : M) : M :=
+  bindM cands fun c => bindM decs fun d => bindM ret fun r => bindM w fun w => match policiesOf c, policiesOf d, w with
+    | some cs, some ds, .alog au dl => .ok (.seq [r, .alog (au ++ [⟨allow, cs, ds⟩]) dl])
+    | _, _, _ => raiseM
+
+/-- `log.info('Incoming Inquiry was allowed / rejected …')`: one more decision-log record -/
+def decisionLogM (b w : M) (k : V → M) : M :=
+  bindM b fun b => bindM w fun w => match w with
+    | .alog au dl => k (.alog au (dl ++ [truth b]))
+    | _ => raiseM
 
 /-- `self.notify()`: the listeners are told once more -/
 def notifyM (w : M) (k : V → M) : M :=
